@@ -181,7 +181,7 @@ def check_whole_writes(ctx, fb, cfg):
 
 
 def run(ctx):
-    cfgs = ["default", "stateless"] if ctx.tier == "quick" else ["default", "stateless", "optimal"]
+    cfgs = ["default", "stateless"] if ctx.tier == "quick" else ["default", "stateless", "optimal", "full"]
     ctx.prefetch(cfgs + ["fixtures"])
     n = 0
     for cfg in cfgs:
